@@ -492,6 +492,8 @@ fn readline_direct(
     let mut input = String::new();
 
     loop {
+        // Text kept from the previous lines (not part of the line terminator)
+        let kept = input.len();
         if reader.read_line(&mut input)? == 0 {
             return Err(ReadlineError::Eof);
         }
@@ -501,7 +503,7 @@ fn readline_direct(
 
         if trailing_n {
             input.pop();
-            trailing_r = input.ends_with('\r');
+            trailing_r = input.len() > kept && input.ends_with('\r');
             if trailing_r {
                 input.pop();
             }
